@@ -1,6 +1,6 @@
 CONSTANTS MaxSend = 1
 MaxRecv = 2
-MaxAfter = 1
+MaxAfter = 2
 SPECIFICATION Spec
 INVARIANT Emit
 CHECK_DEADLOCK FALSE
